@@ -89,7 +89,8 @@ func (s Sets) Key() string {
 }
 
 // WellFormed checks: node ids pairwise distinct, every edge endpoint and root is a node.
-// normalised additionally requires: at most one edge per (from,type), no repeated targets, no empty edges.
+// normalised additionally requires: at most one edge per (from,type) and no repeated targets (an edge without targets
+// breaks neither).
 func WellFormed(nl *sbom.NodeList, normalised bool) error {
 	ids := map[string]bool{}
 	for i, n := range nl.GetNodes() {
@@ -125,9 +126,6 @@ func WellFormed(nl *sbom.NodeList, normalised bool) error {
 				return fmt.Errorf("more than one edge for source %q type %v", e.From, e.Type)
 			}
 			seen[k] = true
-			if len(e.To) == 0 {
-				return fmt.Errorf("edge %q-%v-> has no targets", e.From, e.Type)
-			}
 		}
 	}
 	for _, r := range nl.GetRootElements() {
